@@ -188,8 +188,10 @@ def select_scenarios(prop, tier):
     return fams
 
 
-def run(prop, tier):
-    check = Check(prop, tier)
+def run(prop, tier, check=None):
+    merged = check is not None
+    if check is None:
+        check = Check(prop, tier)
     scenarios = select_scenarios(prop, tier)
     seed = common.seed()
     # ---- 1. exhaustive model checking
@@ -259,10 +261,11 @@ def run(prop, tier):
     check.cov["executions_end_in_crash_or_error"] = sum(1 for s in summaries if s["crashes"])
     summaries_all = summaries
     summaries = [s for s in summaries if s.get("kept", True)]
-    check.cov["traces_validated_against_impl"] = len(summaries)
-    check.cov["evaluations"] = len(summaries_all)
-    check.cov["distinct_nontrivial"] = len({json.dumps(s["schedule"]) for s in summaries if s["steps"] > 5})
-    check.cov["rule"] = ("one evaluation = one recorded execution of the real Environment/Workers on a family scenario under a "
+    check.cov["traces_validated_against_impl"] = check.cov.get("traces_validated_against_impl", 0) * merged + len(summaries)
+    check.cov["evaluations"] = check.cov.get("evaluations", 0) * merged + len(summaries_all)
+    check.cov["distinct_nontrivial"] = (check.cov.get("distinct_nontrivial", 0) * merged +
+                                        len({json.dumps(s["schedule"]) for s in summaries if s["steps"] > 5}))
+    check.cov["rule"] = (check.cov.get("rule", "") + " | ") * merged + ("one evaluation = one recorded execution of the real Environment/Workers on a family scenario under a "
                          "seeded schedule (worker count 1-4, slice length from %s, random prefix visibility and tick placement); "
                          "distinct = distinct schedules of more than 5 atomic steps" % QUANTA)
     for s in summaries[:3]:
